@@ -1150,7 +1150,10 @@ func (c *Chain) Propose(s common.Slot) (bool, error) {
 				c.Rec.Comment("error: " + firstLine(r0.Err.Error()))
 			}
 		}
-		return false, fmt.Errorf("honest block rejected at slot %d: dry=%v real=%v", s, dryErr, res.Err)
+		// the rejected block still seeds the corruption / cancellation streams (a defect may sit exactly at this kind of
+		// block, e.g. the first slot of a fork epoch), and the chain goes on with this slot left empty
+		c.Honest = append(c.Honest, HonestStep{PreID: preID, Blk: p.B, BlkID: blkID, Engine: engMode, Line: line, Rejected: true})
+		return false, &RejectedError{Slot: s, Dry: dryErr, Real: res.Err}
 	}
 	postID := c.Rec.State(res.Post)
 	line := c.Rec.Line("trans %s %s 1 %s %s kind=honest %s", preID, blkID, engMode, postID, tags)
@@ -1312,4 +1315,14 @@ func epcDiffKind(a, b []byte) string {
 		}
 	}
 	return "length"
+}
+
+// RejectedError: zrnt rejected a block the producer believes valid (recorded; the slot stays empty).
+type RejectedError struct {
+	Slot      common.Slot
+	Dry, Real error
+}
+
+func (e *RejectedError) Error() string {
+	return fmt.Sprintf("honest block rejected at slot %d: dry=%v real=%v", e.Slot, e.Dry, e.Real)
 }
